@@ -60,6 +60,11 @@ amounts = st.one_of(
     st.fixed_dictionaries({"months": st.sampled_from([-25, -13, -12, -11, -1, 1, 11, 12, 13, 25])},
                           optional={"years": st.integers(-3, 3), "days": st.integers(-45, 45), "hours": st.integers(-30, 30)}),
     st.fixed_dictionaries({"days": st.integers(-40, 40)}, optional={"hours": st.integers(-30, 30), "minutes": st.integers(-90, 90)}),
+    # calendar units that cancel each other exactly (weeks vs days, years vs months): the call still "involves" calendar units, so the
+    # time units must be applied on the wall clock, not as elapsed time
+    st.builds(lambda k, h, mi, how: dict({"weeks": k, "days": -7 * k} if how == 0 else {"years": k, "months": -12 * k} if how == 1 else {"months": k, "years": 0, "days": 0, "weeks": 0},
+                                         hours=h, minutes=mi),
+              st.integers(-3, 3).filter(lambda k: k != 0), st.integers(-30, 30), st.sampled_from([0, 0, 30, -45]), st.integers(0, 1)),
 )
 
 
